@@ -80,6 +80,9 @@ func jsTypeNoNull(m *Model, t T) map[string]any {
 		s["type"] = "boolean"
 	case KString:
 		s["type"] = "string"
+		if t.Format != "" {
+			s["format"] = t.Format
+		}
 		if t.MinLen != nil {
 			s["minLength"] = *t.MinLen
 		}
@@ -325,6 +328,9 @@ func oaType(m *Model, t T) map[string]any {
 		s["type"] = "boolean"
 	case KString:
 		s["type"] = "string"
+		if t.Format != "" {
+			s["format"] = t.Format
+		}
 		if t.MinLen != nil {
 			s["minLength"] = *t.MinLen
 		}
